@@ -1,7 +1,8 @@
 \* Quick tier: binary tables.  In linear mode the interpolant is LINEAR in the table entries with weights that depend on
 \* the query only, so the clauses hold for every table iff the weights outside the bracketing nodes vanish (one-hot
 \* tables), the bracketing weights are non-negative (one-hot) and sum to one (constant table): all of them are among the
-\* 2^9 binary tables.  The thorough tier enumerates three-valued tables ({0,1,3}, unequal node spacing) as well.
+\* 2^9 binary tables.  The same argument covers BilinearOrderIrrelevant (both orders are linear in the table), which is
+\* therefore checked here only.  The thorough tier enumerates three-valued tables ({0,1,3}, unequal node spacing) as well.
 SPECIFICATION Spec
 CONSTANTS
   TNS = {300,500,700}
